@@ -111,6 +111,19 @@ CLAIMED["C04"] = (
     "DESIGN.md §3 C04",
     "Keyword-argument constant handling in codegen (static kwargs) is not covered.")
 
+CLAIMED["C08"] = (
+    "frozen operator table checked against switch-arm summaries of value/ops.rs + lossy-cast lint with round-trip idiom + overflow-assert lint + sign-discipline rule for unary minus + error discipline of literal conversion",
+    "Static rule check: in the integer arm of add/sub/mul/int_div/rem/pow the result comes from the matching "
+    "i128::checked_* applied lhs-op-rhs and its None reaches `return Err`; the float arms of `//` and `%` are "
+    "div_euclid and rem_euclid (one convention); no IntToInt cast on operand flow can change the value except "
+    "inside / under the round-trip test; the numeric operator functions contain no overflow-capable primitive "
+    "arithmetic; integer literals convert through from_str_radix with the error reported; every value `neg` returns "
+    "is the result of a negation.  This decides 'no wrap, no silent truncation, no dropped sign, one // and % "
+    "convention' for all operand pairs and storage widths; numeric values themselves and exact int/float comparison "
+    "are not decided.",
+    "DESIGN.md §3 C08",
+    "One known finding (neg of 2^127 keeps the sign positive) is pinned by an existing snapshot and therefore listed, not repaired.")
+
 NOT_APPLICABLE = {
 }
 
